@@ -471,7 +471,10 @@ func checkUniqueNameComparison(c *core.Ctx, rule string) {
 	}
 	n := 0
 	for _, fr := range p.AllFuncs("logical", "physical", "optimizer", "execution", "cmd", "parser") {
-		if strings.HasSuffix(p.Fset.File(fr.Decl.Pos()).Name(), "_test.go") {
+		if fr.Decl == nil || fr.Decl.Body == nil {
+			continue
+		}
+		if f := p.Fset.File(fr.Decl.Pos()); f != nil && strings.HasSuffix(f.Name(), "_test.go") {
 			continue
 		}
 		info := fr.Info()
